@@ -100,8 +100,9 @@ package iparser
 //@   ensures [C20] once: old(len(g.ParseErrors)) == 0 ==> handed == 1
 
 //@ func (*GengineParserListener).ExitForRangeStmt
-//@   props C20
+//@   props C20 C02
 //@   requires g != nil && ctx != nil
+//@   ensures [C02] attached: old(len(g.ParseErrors)) == 0 ==> statement.ForRangeStmt == forRangeStmt
 //@   ensures [C20] positioned: old(len(g.ParseErrors)) == 0 ==> forRangeStmt.LineNum == tokLine(startTok(ctx.BaseParserRuleContext)) && forRangeStmt.Code == ctxText(ctx.BaseParserRuleContext)
 
 // rule metadata (C01, @name / @desc / @sal): the header fields are reset when a rule starts, and a metadata constant
@@ -216,4 +217,67 @@ package iparser
 //@     assert [C01] nonnil: handed == 0
 //@     after handed := handed + 1
 //@   ensures [C01] once: old(len(g.ParseErrors)) == 0 ==> handed == 1
+
+// statement wiring (C02): the finished child is popped and attached to the matching field of the node below it
+//@ func (*GengineParserListener).ExitIfStmt
+//@   props C02
+//@   requires g != nil
+//@   ensures [C02] attached: old(len(g.ParseErrors)) == 0 ==> statement.IfStmt == ifStmt
+//@   modifies base.Statement.IfStmt
+
+//@ func (*GengineParserListener).ExitElseStmt
+//@   props C02
+//@   requires g != nil
+//@   ensures [C02] attached: old(len(g.ParseErrors)) == 0 ==> ifStmt.ElseStmt == elseStmt
+//@   modifies base.IfStmt.ElseStmt
+
+//@ func (*GengineParserListener).ExitBreakStmt
+//@   props C02
+//@   requires g != nil
+//@   ensures [C02] attached: old(len(g.ParseErrors)) == 0 ==> statement.BreakStmt == breakStmt
+//@   modifies base.Statement.BreakStmt
+
+//@ func (*GengineParserListener).ExitContinueStmt
+//@   props C02
+//@   requires g != nil
+//@   ensures [C02] attached: old(len(g.ParseErrors)) == 0 ==> statement.ContinueStmt == continueStmt
+//@   modifies base.Statement.ContinueStmt
+
+//@ func (*GengineParserListener).ExitConcStatement
+//@   props C02
+//@   requires g != nil
+//@   ensures [C02] attached: old(len(g.ParseErrors)) == 0 ==> statement.ConcStatement == concStatement
+//@   modifies base.Statement.ConcStatement
+
+//@ func (*GengineParserListener).ExitReturnStmt
+//@   props C02
+//@   requires g != nil
+//@   ensures [C02] attached: old(len(g.ParseErrors)) == 0 ==> stats.ReturnStatement == rs
+//@   modifies base.Statements.ReturnStatement
+
+//@ func (*GengineParserListener).ExitRuleContent
+//@   props C02
+//@   requires g != nil
+//@   ensures [C02] attached: old(len(g.ParseErrors)) == 0 ==> entity.RuleContent == ruleContent
+//@   modifies base.RuleEntity.RuleContent
+
+//@ func (*GengineParserListener).ExitStatement
+//@   props C02
+//@   arith int unchecked
+//@   requires g != nil
+//@   ensures [C02] appended: old(len(g.ParseErrors)) == 0 ==> len(statements.StatementList) >= 1 && statements.StatementList[len(statements.StatementList) - 1] == statement
+//@   modifies base.Statements.StatementList, elemsof(*base.Statement)
+
+//@ func (*GengineParserListener).ExitElseIfStmt
+//@   props C02
+//@   arith int unchecked
+//@   requires g != nil
+//@   ensures [C02] appended: old(len(g.ParseErrors)) == 0 ==> len(ifStmt.ElseIfStmtList) >= 1 && ifStmt.ElseIfStmtList[len(ifStmt.ElseIfStmtList) - 1] == elseIfStmt
+//@   modifies base.IfStmt.ElseIfStmtList, elemsof(*base.ElseIfStmt)
+
+//@ func (*GengineParserListener).ExitForStmt
+//@   props C02
+//@   requires g != nil
+//@   ensures [C02] attached: old(len(g.ParseErrors)) == 0 ==> statement.ForStmt == forStmt
+//@   modifies base.Statement.ForStmt
 
